@@ -98,6 +98,11 @@ STRUCTS = [
     (f"{S}({DT}UINT('x'), {DT}UINT, {DT}DINT('y'))", "('struct', (('x', 'UINT'), (None, 'UINT'), ('y', 'DINT')))",
      None, [P.int(), P.int(), P.int()]),
     (f"{S}()", "('struct', ())", P.dict(), []),
+    # unnamed members of variable size are consumed like named ones (reserved / filler strings)
+    (f"{S}({DT}UINT('before'), {DT}SHORT_STRING, {DT}DINT('after'))",
+     "('struct', (('before', 'UINT'), (None, 'SHORT_STRING'), ('after', 'DINT')))", None, [P.int(), P.str(maxcp=0xFF), P.int()]),
+    (f"{S}({DT}STRING, pycomm3.custom_types.FixedSizeString(4), {DT}USINT('after'))",
+     "('struct', ((None, 'STRING'), (None, ('fixedstring', 4)), ('after', 'USINT')))", None, [P.str(maxcp=0xFF), P.str(maxcp=0xFF), P.int()]),
     (f"{S}({S}({DT}UINT('p'), {DT}UINT('q'))('in'), {A}(2, {DT}USINT)('arr'))",
      "('struct', (('in', ('struct', (('p', 'UINT'), ('q', 'UINT')))), ('arr', ('array', 2, 'USINT'))))",
      P.dict(**{"in": P.dict(p=P.int(), q=P.int()), "arr": P.list(P.int(), 2)}),
